@@ -18,6 +18,7 @@ import (
 
 	"github.com/TarsCloud/TarsGo/tars/protocol/codec"
 	"github.com/TarsCloud/TarsGo/tars/protocol/res/requestf"
+	"github.com/apache/thrift/lib/go/thrift"
 	"mosn.io/api"
 	"mosn.io/mosn/pkg/protocol/xprotocol/bolt"
 	"mosn.io/mosn/pkg/protocol/xprotocol/boltv2"
@@ -343,6 +344,8 @@ func c01Bolt(run *Run, cd *codecDef, v2engine bool) {
 func c01X(run *Run, cd *codecDef) {
 	r := run.R
 	sh := run.NewShard(xShardHeader, "xenc_case", "xenc_mismatches")
+	slowSh := run.NewShard(xShardHeader, "xslow_case", "xslow_mismatches")
+	defer slowSh.Close()
 	shBytes := 0
 	nframes := run.N(12, 200)
 	for i := 0; i < nframes; i++ {
@@ -435,8 +438,21 @@ func c01X(run *Run, cd *codecDef) {
 					run.Fail(cd.Name+":forwarded-frame-not-identical:"+how, fmt.Sprintf("%s: Decode, SetRequestId, Encode (%s) does not return the received frame with only the id replaced", cd.Name, how), rep)
 				}
 			}
-			// Coq correspondence (dubbo: all variants; dubbo-thrift: id only; tars: encoder is TarsGo, not modelled)
-			if cd.Name == "tars" || variant == 1 || (cd.Name == "dubbo-thrift" && variant == 3) {
+			// Coq correspondence (dubbo: all variants; dubbo-thrift: id only + the slow path relative to the library writer;
+			// tars: the encoder is TarsGo, covered by the library-relative theorem and the premise checks)
+			if cd.Name == "dubbo-thrift" && variant == 3 {
+				svc, _ := xf.GetHeader().Get("service")
+				lib := thriftWhdr(svc, xf.GetRequestId())
+				slowSh.Add(fmt.Sprintf("(%s, %s, %s)", CoqBytes(lib), CoqBytes(newBody), CoqBytes(out)), rep)
+				continue
+			}
+			if cd.Name == "tars" {
+				if len(out) < 4 || int(binary.BigEndian.Uint32(out)) != len(out) {
+					run.Fail("tars:length-prefix-inconsistent", "tars Encode wrote a length prefix that is not the frame length", rep)
+				}
+				continue
+			}
+			if variant == 1 {
 				continue
 			}
 			if (len(in) > 20000 && r.Pct(run.N(85, 50))) || (!run.Thorough() && len(in) > 3000 && r.Pct(50)) {
@@ -497,6 +513,7 @@ func c01(args []string) int {
 			c01X(run, cd)
 		}
 	}
+	c01Premises(run)
 	return run.Finish()
 }
 
@@ -528,4 +545,105 @@ func tarsSamePacket(a, b []byte) (same bool) {
 	}
 	pa.IRequestId, pb.IRequestId = 0, 0
 	return reflect.DeepEqual(pa, pb)
+}
+
+// ---- premises of the library-relative theorems, validated on the real libraries ------------------------------------
+
+// thriftWhdr: what the dubbo-thrift slow path lets the thrift library write for service name and id
+func thriftWhdr(service string, id uint64) []byte {
+	b := buffer.NewIoBuffer(64)
+	t := thrift.NewStreamTransportW(b)
+	p := thrift.NewTBinaryProtocolTransport(t)
+	p.WriteString(service)
+	p.WriteI64(int64(id))
+	p.Flush(nil)
+	return append([]byte{}, b.Bytes()...)
+}
+
+// thriftMbegin: ReadMessageBegin/End on a payload
+func thriftMbegin(payload []byte) (mt int32, ok bool) {
+	defer func() {
+		if recover() != nil {
+			ok = false
+		}
+	}()
+	t := thrift.NewStreamTransportR(buffer.NewIoBufferBytes(append([]byte{}, payload...)))
+	defer t.Close()
+	p := thrift.NewTBinaryProtocolTransport(t)
+	_, m, _, err := p.ReadMessageBegin()
+	if err != nil {
+		return 0, false
+	}
+	if err := p.ReadMessageEnd(); err != nil {
+		return 0, false
+	}
+	return int32(m), true
+}
+
+func c01Premises(run *Run) {
+	r := run.R
+	// thrift_law: tparse (whdr svc id ++ pl) = option_map (fun mt => (id, mt)) (mbegin pl)
+	for i := 0; i < run.N(60, 600); i++ {
+		svc := "com." + randName(r, r.Pick([]int{0, 1, 5, 20, 250, 256}))
+		id := r.U64()
+		var pl []byte
+		switch r.Intn(4) {
+		case 0:
+			pl = r.Bytes(r.Intn(30)) // mostly not a message begin
+		default:
+			o := genThrift(r, false).Bytes
+			pl = o[4+int(binary.BigEndian.Uint16(o[10:12])):]
+		}
+		lib := thriftWhdr(svc, id)
+		gid, gmt, gok := thriftParse(append(append([]byte{}, lib...), pl...))
+		mt, mok := thriftMbegin(pl)
+		run.Count(fmt.Sprintf("premise|thrift|%d", i), true, "premise:thrift-library-law")
+		if gok != mok || (gok && (gid != id || gmt != mt)) {
+			run.Fail("premise:thrift-library-law", "the thrift library does not read back what WriteString/WriteI64 wrote in front of a payload (premise of c01_thrift_slow_roundtrip)",
+				map[string]interface{}{"service": svc, "id": id, "payload_hex": Hex(clip(pl, 512)), "read": []interface{}{gid, gmt, gok}, "mbegin": []interface{}{mt, mok}})
+		}
+	}
+	// tars laws: ReadFrom (WriteTo p) = p; tag-5 scan of a written frame
+	for i := 0; i < run.N(60, 600); i++ {
+		vf := genTars(r, false)
+		fr := vf.Bytes
+		st := tarsStype(fr)
+		isReq := st == 6 || st == 7
+		run.Count(fmt.Sprintf("premise|tars|%d", i), true, "premise:tarsgo-laws")
+		var again []byte
+		okRT := false
+		func() {
+			defer func() { recover() }()
+			os := codec.NewBuffer()
+			if isReq {
+				p := &requestf.RequestPacket{}
+				if p.ReadFrom(codec.NewReader(fr[4:])) != nil {
+					return
+				}
+				p.WriteTo(os)
+				q := &requestf.RequestPacket{}
+				again = os.ToBytes()
+				okRT = q.ReadFrom(codec.NewReader(again)) == nil && reflect.DeepEqual(p, q)
+			} else {
+				p := &requestf.ResponsePacket{}
+				if p.ReadFrom(codec.NewReader(fr[4:])) != nil {
+					return
+				}
+				p.WriteTo(os)
+				q := &requestf.ResponsePacket{}
+				again = os.ToBytes()
+				okRT = q.ReadFrom(codec.NewReader(again)) == nil && reflect.DeepEqual(p, q)
+			}
+		}()
+		if !okRT {
+			run.Fail("premise:tarsgo-roundtrip-law", "TarsGo does not read back the packet it wrote (premise of c01_tars_encode_decode)", map[string]interface{}{"frame_hex": Hex(clip(fr, 1024))})
+			continue
+		}
+		st2 := tarsStype(cat(be32(uint32(4+len(again))), again))
+		req2 := st2 == 6 || st2 == 7
+		resp2 := st2 == 0 || st2 == 1 || st2 == 2 || st2 == 12
+		if (isReq && !req2) || (!isReq && !resp2) {
+			run.Fail("premise:tarsgo-stype-law", "the tag-5 scan of a frame written by TarsGo does not classify it as it was read (premise of c01_tars_encode_decode)", map[string]interface{}{"frame_hex": Hex(clip(fr, 1024)), "type": st2})
+		}
+	}
 }
